@@ -44,20 +44,21 @@ func (a action) i(k string) int {
 }
 
 type driver struct {
-	u      *vh.Universe
-	s      *packet.Session
-	conn   *vh.RecConn
-	vnow   int
-	rng    *rand.Rand // frame contents and stutter choices: identical in fresh and shared mode
-	brng   *rand.Rand // buffer capacities and scribble patterns
-	shared bool
-	rx     []byte // shared receive buffer (shared mode)
-	last   packet.Frame
-	hasFr  bool
-	out    *bufio.Writer
-	frames int // frames written by the session (probes), cumulative
-	steps  int
-	sent   [][]byte
+	u       *vh.Universe
+	s       *packet.Session
+	conn    *vh.RecConn
+	vnow    int
+	rng     *rand.Rand // frame contents and stutter choices: identical in fresh and shared mode
+	brng    *rand.Rand // buffer capacities and scribble patterns
+	shared  bool
+	nodrain bool   // the caller never reads Session.C (Notify and C are optional): notifications pile up
+	rx      []byte // shared receive buffer (shared mode)
+	last    packet.Frame
+	hasFr   bool
+	out     *bufio.Writer
+	frames  int // frames written by the session (probes), cumulative
+	steps   int
+	sent    [][]byte
 }
 
 func (d *driver) reset(cfg int, probe, offline, purge int) error {
@@ -169,7 +170,7 @@ func (d *driver) dhcpFrame(mac string) []byte {
 }
 
 // untracked frames: every class the statement of C04 says must not create a host.
-var untrackedKinds = []string{"own-src-ip4", "own-src-ip6", "own-src-arp", "mcast-src", "bcast-src", "offlan-ip4", "zero-ip4",
+var untrackedKinds = []string{"own-src-arp-forged", "own-src-ip4", "own-src-ip6", "own-src-arp", "mcast-src", "bcast-src", "offlan-ip4", "zero-ip4",
 	"router-gua", "8023", "unknown-ethertype", "bad-ip4", "short", "mcast-ip6-src", "lldp", "arp-offlan", "arp-zero"}
 
 func (d *driver) untrackedFrame(kind string) []byte {
@@ -183,6 +184,11 @@ func (d *driver) untrackedFrame(kind string) []byte {
 		return vh.FrameIP6UDP(vh.OwnMAC, vh.AllNodesM6, u.IP("l1"), vh.AllNodes6, 1000, 2000, []byte("x"))
 	case "own-src-arp":
 		return vh.FrameARP(vh.OwnMAC, vh.Bcast, 1, vh.OwnMAC, lanip, vh.ZeroMAC, u.Cfg.RouterIP)
+	case "own-src-arp-forged": // what our own ARP spoofer emits: our Ethernet source, a client's / the router's sender fields
+		if d.rng.Intn(2) == 0 {
+			return vh.FrameARP(vh.OwnMAC, m1, 2, vh.RouterMAC, u.Cfg.RouterIP, m1, lanip)
+		}
+		return vh.FrameARP(vh.OwnMAC, vh.Bcast, 1, m1, lanip, vh.ZeroMAC, u.Cfg.RouterIP)
 	case "mcast-src":
 		return vh.FrameIP4UDP(net.HardwareAddr{0x01, 0, 0x5e, 0, 0, 1}, vh.RouterMAC, lanip, u.Cfg.RouterIP, 1000, 2000, []byte("x"))
 	case "bcast-src":
@@ -350,7 +356,12 @@ func (d *driver) step(a action) (rec map[string]interface{}) {
 	hosts, macs := vh.ProjectTables(u, d.s)
 	rec["hosts"], rec["macs"] = hosts, macs
 	rec["api"] = vh.ProjectAPI(u, d.s)
-	notes := d.drain()
+	notes := []vh.NoteP{}
+	if d.nodrain {
+		rec["nd"] = len(d.s.C) // pending, unread notifications
+	} else {
+		notes = d.drain()
+	}
 	if a.s("a") == "purge" {
 		// purge walks a Go map: the emission order of its offline notifications is unspecified
 		// (the specification treats them as a set), so log them in a canonical order
@@ -429,6 +440,7 @@ func main() {
 			if a.i("offline") != 0 {
 				probe, offline, purge = a.i("probe"), a.i("offline"), a.i("purge")
 			}
+			d.nodrain = a.i("nodrain") == 1
 			if err := d.reset(a.i("cfg"), probe, offline, purge); err != nil {
 				fmt.Fprintln(os.Stderr, "session:", err)
 				os.Exit(2)
@@ -437,7 +449,7 @@ func main() {
 			skipping = false
 			hosts, macs := vh.ProjectTables(d.u, d.s)
 			enc.Encode(map[string]interface{}{"a": "reset", "cfg": a.i("cfg"), "id": a["id"], "hosts": hosts, "macs": macs,
-				"api": vh.ProjectAPI(d.u, d.s), "notes": []int{}, "now": 0, "err": "", "probe": probe, "offline": offline, "purge": purge})
+				"api": vh.ProjectAPI(d.u, d.s), "notes": []int{}, "now": 0, "err": "", "probe": probe, "offline": offline, "purge": purge, "nodrain": a.i("nodrain")})
 			continue
 		}
 		if skipping {
